@@ -478,6 +478,12 @@ def oracle_seq(ctx, c, tr, stats):
     n_sent = 0
     local = {}                  # epr -> (types, scopes text|None, xaddrs, mdv)
     ann = {}                    # epr -> versions announced since the last Bye (of acted-on messages)
+    ann_full = {}               # epr -> [(version, types, scopes)] announced since the last Bye
+
+    def note_ann(svc):
+        ann.setdefault(svc['epr'], []).append(svc['mdv'])
+        ann_full.setdefault(svc['epr'], []).append(
+            (svc['mdv'], tuple(tuple(t) for t in (svc['types'] or [])), tuple((svc['scopes'] or {}).get('text') or [])))
     sent_msgs = []
 
     def remember(i):
@@ -567,15 +573,16 @@ def oracle_seq(ctx, c, tr, stats):
                 if any(o['kind'] in ('ProbeMatches', 'ResolveMatches') for o in outs):
                     fail(f'{kind} message answered with {outs}', 'unsolicited-answer', k)
                 if kind == 'hello' and m.get('appseq') is not None and m['svc']['epr']:
-                    ann.setdefault(m['svc']['epr'], []).append(m['svc']['mdv'])
+                    note_ann(m['svc'])
                 elif kind == 'probematches' and m.get('appseq') is not None:
                     for s in m['matches']:
                         if s['epr']:
-                            ann.setdefault(s['epr'], []).append(s['mdv'])
+                            note_ann(s)
                 elif kind == 'resolvematches' and m.get('appseq') is not None and m['match'] is not None and m['match']['epr']:
-                    ann.setdefault(m['match']['epr'], []).append(m['match']['mdv'])
+                    note_ann(m['match'])
                 elif kind == 'bye':
                     ann.pop(m['epr'], None)
+                    ann_full.pop(m['epr'], None)
         # ---- table clause after every event: per epr the highest version since its last Bye
         want_tbl = sorted((e, max(v)) for e, v in ann.items())
         got_tbl = sorted((e, v) for e, v in st['remote_brief'])
@@ -583,6 +590,15 @@ def oracle_seq(ctx, c, tr, stats):
             fail(f'after event {k} the table holds {got_tbl}, highest versions announced since the last Bye are {want_tbl}',
                  'table-max-version', k)
             return
+        # ---- ... and the entry IS an announcement of that version: its types and scopes were announced with the highest
+        # version (an outdated announcement must not leak into the entry; equal versions may merge)
+        for e, types, scopes in st.get('remote_content', []):
+            top = [a for a in ann_full.get(e, []) if a[0] == max(ann[e])]
+            tt = tuple(tuple(t) for t in types)
+            if tt not in [a[1] for a in top] or tuple(scopes) not in [a[2] for a in top]:
+                fail(f'after event {k} the entry of {e} (version {max(ann[e])}) has types {types} / scopes {scopes}, which no '
+                     f'announcement with that version carried: {top}', 'table-entry-content', k)
+                return
         # own messages created by this event, for later loop-backs
         for o in outs:
             n_sent += 1
